@@ -1382,7 +1382,7 @@ struct array : static_array<T, D, Alloc> {
 		if(array::extensions() == other.extensions()) {
 			static_::operator=(other);  // TODO(correaa) : protect for self assigment
 		} else {
-			operator=(array{other});
+			operator=(array{other, this->get_allocator()});  // the new value is built with this array's allocator, which assignment from a view must not replace
 		}
 		return *this;
 	}
@@ -1397,7 +1397,7 @@ struct array : static_array<T, D, Alloc> {
 			static_::operator=(other);
 			//  this->operator()() = other;
 		} else {
-			operator=(static_cast<array>(other));
+			operator=(array{other, this->get_allocator()});  // idem
 		}
 		assert(this->stride() != 0);
 		return *this;
@@ -1418,7 +1418,11 @@ struct array : static_array<T, D, Alloc> {
 			//  static_::operator=(other);
 			this->operator()() = std::forward<Range>(other);
 		} else {
-			operator=(static_cast<array>(std::forward<Range>(other)));
+			if constexpr(std::is_constructible_v<array, Range&&, typename array::allocator_type const&>) {
+				operator=(array(std::forward<Range>(other), this->get_allocator()));  // idem
+			} else {
+				operator=(static_cast<array>(std::forward<Range>(other)));
+			}
 		}
 		return *this;
 	}
@@ -1436,7 +1440,11 @@ struct array : static_array<T, D, Alloc> {
 			this->operator()() = other;
 			//  static_::operator=(other);
 		} else {
-			operator=(static_cast<array>(std::forward<Range>(other)));
+			if constexpr(std::is_constructible_v<array, Range&&, typename array::allocator_type const&>) {
+				operator=(array(std::forward<Range>(other), this->get_allocator()));  // idem
+			} else {
+				operator=(static_cast<array>(std::forward<Range>(other)));
+			}
 		}
 		return *this;
 	}
@@ -1463,7 +1471,7 @@ struct array : static_array<T, D, Alloc> {
 		if(count == this->size() && (count == 0 || typename array::layout_t{typename array::index_extension(count) * multi::extensions(*first)}.sizes() == this->sizes())) {
 			static_::ref::assign(first);
 		} else {
-			this->operator=(array(first, last));
+			this->operator=(array(first, last, this->get_allocator()));  // idem
 		}
 		return *this;
 	}
